@@ -60,7 +60,7 @@ theorem LInv.inUpdate {w : Wiring} {s : Net} (hl : LInv w s) {j : Nat} {nd nd' :
     (hwait : ∀ sub', mb'.subs[0]? = some sub' → sub'.flag ≠ none → nd'.pc = .read ∧ nd'.batch = [])
     (htop : w.lazy = true → ∀ sub sub', mb.subs[0]? = some sub → mb'.subs[0]? = some sub' → sub.flag ≠ none →
       sub.next = mb.nSent → sub'.flag ≠ none ∧ sub'.next = sub.next)
-    (hown : w.lazy = true → nd'.pc = .read → nd.pc = .read) :
+    (hown : w.lazy = true → nd'.pc = .read → nd.pc = .read ∨ s.mbs.length ≤ j + 1) :
     LInv w { (s.setMb j mb').setNode (j + 1) nd' with pulled := p' } := by
   have hjm : j < s.mbs.length := (List.getElem?_eq_some_iff.mp hm).1
   have hjn : j + 1 < s.nodes.length := (List.getElem?_eq_some_iff.mp hn).1
@@ -88,7 +88,9 @@ theorem LInv.inUpdate {w : Wiring} {s : Net} (hl : LInv w s) {j : Nat} {nd nd' :
       by_cases h2 : j + 1 = i
       · subst h2
         simp only [hjn, if_true, Option.some.injEq] at hx; subst hx
-        exact hl.atTop hlz (j + 1) nd out sub hn hout hsub (hown hlz hr)
+        rcases hown hlz hr with h0 | h0
+        · exact hl.atTop hlz (j + 1) nd out sub hn hout hsub h0
+        · have := (List.getElem?_eq_some_iff.mp hout).1; omega
       · rw [if_neg h2] at hx
         exact hl.atTop hlz i x out sub hx hout hsub hr
 
@@ -131,9 +133,9 @@ theorem LInv.balanced {w : Wiring} {s : Net} (h : Inv w s) (hl : LInv w s) (hlz 
     obtain ⟨hf, hnx⟩ := hl.atTop hlz _ nd mb sub hn hm hsub hr
     obtain ⟨rd, hrn⟩ : ∃ rd, s.nodes[w.caps.length - 1 + 1]? = some rd :=
       ⟨s.nodes[w.caps.length - 1 + 1]'(by omega), List.getElem?_eq_getElem _⟩
-    obtain ⟨_, hb⟩ := hl.waiting _ rd mb sub hrn hm hsub hf
+    obtain ⟨hrp, hb⟩ := hl.waiting _ rd mb sub hrn hm hsub hf
     have := (h.main (w.caps.length - 1) rd mb sub c (by omega) hrn hm hsub hc).1
-    rw [hb] at this; simp at this; omega
+    simp only [Node.held, hrp, pend, hb, List.length_nil] at this; omega
   · intro i hi ih nd mb hn hm hr
     obtain ⟨c, hc, hok⟩ := h.capAt hm
     obtain ⟨sub, hsub⟩ := hok.sub0
@@ -209,9 +211,9 @@ theorem LInv.stepGate {w : Wiring} {s s' : Net} (h : Inv w s) (hl : LInv w s) {j
       exact ⟨hf, hnx⟩
 
 theorem LInv.stepSend {w : Wiring} {s s' : Net} (h : Inv w s) (hl : LInv w s) {j : Nat} {nd : Node} {out : MB} {m : Msg}
-    (hn : s.nodes[j]? = some nd) (hpc : nd.pc = .send m ∨ (nd.pc = .close ∧ m = .stop)) (hm : s.mbs[j]? = some out)
+    (hn : s.nodes[j]? = some nd) (hpc : (∃ m0, nd.pc = .send m0) ∨ nd.pc = .close) (hm : s.mbs[j]? = some out)
     {r : SendOut × MB} (hg : out.sendStep none m = some r)
-    (hs : (∃ n, r.1 = .sent n ∧ ((nd.pc = .send m ∧ s' = (s.setMb j r.2).setNode j (afterPush s.lazy j nd)) ∨
+    (hs : (∃ n, r.1 = .sent n ∧ (((∃ m0, nd.pc = .send m0) ∧ s' = (s.setMb j r.2).setNode j (afterPush s.lazy j nd)) ∨
                                (nd.pc = .close ∧ s' = (s.setMb j { r.2 with closed := true }).setNode j { nd with pc := .done }))) ∨
           (∃ n, r.1 = .waiting n ∧ s' = s.setMb j r.2) ∨ r.1 = .dropped ∨ ∃ e, r.1 = .raised e) : LInv w s' := by
   obtain ⟨c, hc, hok⟩ := h.capAt hm
@@ -220,9 +222,9 @@ theorem LInv.stepSend {w : Wiring} {s s' : Net} (h : Inv w s) (hl : LInv w s) {j
     | false => rfl
     | true =>
       have := h.closed j out nd hm hn hcl
-      rcases hpc with hpc | ⟨hpc, _⟩ <;> rw [hpc] at this <;> cases this
+      rcases hpc with ⟨m0, hpc⟩ | hpc <;> rw [hpc] at this <;> cases this
   have hnr : nd.pc ≠ .read := by
-    rcases hpc with hpc | ⟨hpc, _⟩ <;> rw [hpc] <;> simp
+    rcases hpc with ⟨m0, hpc⟩ | hpc <;> rw [hpc] <;> simp
   obtain ⟨o, mb⟩ := r
   rcases hok.sendStep hncl hg with ⟨ho, hmb, hroom⟩ | ⟨ho, hmb⟩
   · simp only at hs ho
@@ -267,16 +269,23 @@ theorem LInv.stepPull {w : Wiring} {s s' : Net} (hl : LInv w s) {i : Nat} {nd : 
   cases msgs with
   | nil => simp [Net.pull] at hs
   | cons m r =>
-    have key : ∀ pc' : Pc, LInv w { ((s.setMb i mb').setNode (i + 1) { pc := pc', batch := r }) with pulled := s.pulled + 1 } := by
-      intro pc'
-      apply hl.inUpdate hn hm hns hex (Nat.le_succ _)
+    have key : ∀ (pc' : Pc) (p' : Nat), s.pulled ≤ p' →
+        LInv w { ((s.setMb i mb').setNode (i + 1) { pc := pc', batch := r }) with pulled := p' } := by
+      intro pc' p' hp'
+      apply hl.inUpdate hn hm hns hex hp'
       · intro sub' hs' hf; exact (hwait sub' hs' hf).elim
       · exact htop
-      · intro _ _; exact hpc
+      · intro _ _; exact Or.inl hpc
     cases m with
-    | stop => simp only [Net.pull, Option.some.injEq] at hs; subst hs; exact key .done
-    | plain v => simp only [Net.pull, Option.some.injEq] at hs; subst hs; exact key .read
-    | fut a b => simp only [Net.pull, Option.some.injEq] at hs; subst hs; exact key .read
+    | stop => simp only [Net.pull, Option.some.injEq] at hs; subst hs; exact key .done _ (Nat.le_succ _)
+    | plain v =>
+      simp only [Net.pull, unresolved, Bool.false_eq_true, if_false, Option.some.injEq] at hs; subst hs
+      exact key .read _ (Nat.le_succ _)
+    | fut a b =>
+      simp only [Net.pull] at hs
+      split at hs
+      · simp only [Option.some.injEq] at hs; subst hs; exact key (.send (.fut a b)) s.pulled (Nat.le_refl _)
+      · simp only [Option.some.injEq] at hs; subst hs; exact key .read _ (Nat.le_succ _)
 
 theorem LInv.stepRead {w : Wiring} {s s' : Net} (h : Inv w s) (hl : LInv w s) {i : Nat} {nd : Node} {inp : MB}
     (hn : s.nodes[i + 1]? = some nd) (hpc : nd.pc = .read) (hb : nd.batch = []) (hm : s.mbs[i]? = some inp)
@@ -304,7 +313,7 @@ theorem LInv.stepRead {w : Wiring} {s s' : Net} (h : Inv w s) (hl : LInv w s) {i
         rw [h4] at hb'
         rw [sub0_set0 hsub hb']
         exact ⟨by rw [h2]; simp, h1⟩
-      · intro _ hr; exact hr
+      · intro _ hr; exact Or.inl hr
     · cases hk
     · cases hm'
   | took msgs s1 h1 h2 h3 h4 h5 h6 =>
@@ -365,6 +374,25 @@ theorem LInv.stepBatch {w : Wiring} {s s' : Net} (h : Inv w s) (hl : LInv w s) {
     intro _ hr
     exact absurd (advance_read hr) hb
 
+theorem LInv.stepHand {w : Wiring} {s : Net} (h : Inv w s) (hl : LInv w s) {j : Nat} {nd : Node} {m : Msg}
+    (hn : s.nodes[j]? = some nd) (hpc : nd.pc = .send m) (hlast : j = s.mbs.length) :
+    LInv w { (s.setNode j { nd with pc := .read }) with pulled := s.pulled + 1 } := by
+  have hlenM := h.lenM
+  have hpos := h.pos
+  obtain ⟨i, rfl⟩ : ∃ i, j = i + 1 := ⟨j - 1, by omega⟩
+  obtain ⟨mb, hm⟩ : ∃ mb, s.mbs[i]? = some mb := ⟨s.mbs[i]'(by omega), List.getElem?_eq_getElem _⟩
+  obtain ⟨c, hc, hok⟩ := h.capAt hm
+  rw [← setMb_self hm]
+  apply hl.inUpdate hn hm rfl hok.sub0 (by simp only [Net.setMb]; omega)
+  · intro sub' hs' hf
+    have := (hl.waiting i nd mb sub' hn hm hs' hf).1
+    rw [hpc] at this; cases this
+  · intro _ sub sub' h1 h2 hf _
+    rw [h1] at h2; cases h2; exact ⟨hf, rfl⟩
+  · intro _ _
+    -- the consumer has no output mailbox
+    exact Or.inr (by omega)
+
 theorem LInv.stepNode {w : Wiring} {s s' : Net} (h : Inv w s) (hl : LInv w s) {j : Nat}
     (hs : Backpressure.stepNode s j = some s') : LInv w s' := by
   unfold Backpressure.stepNode at hs
@@ -423,19 +451,25 @@ theorem LInv.stepNode {w : Wiring} {s s' : Net} (h : Inv w s) (hl : LInv w s) {j
       rename_i m hpc
       split at hs
       · simp at hs
-      · rename_i out hm
-        split at hs
-        · simp at hs
-        · rename_i n mb hg
-          simp only [Option.some.injEq] at hs
-          exact hl.stepSend h hn (Or.inl hpc) hm hg (Or.inl ⟨n, rfl, Or.inl ⟨hpc, hs.symm⟩⟩)
-        · rename_i mb hg
-          exact hl.stepSend h hn (Or.inl hpc) hm hg (Or.inr (Or.inr (Or.inl rfl)))
-        · rename_i n mb hg
-          simp only [Option.some.injEq] at hs
-          exact hl.stepSend h hn (Or.inl hpc) hm hg (Or.inr (Or.inl ⟨n, rfl, hs.symm⟩))
-        · rename_i e mb hg
-          exact hl.stepSend h hn (Or.inl hpc) hm hg (Or.inr (Or.inr (Or.inr ⟨e, rfl⟩)))
+      · split at hs
+        · rename_i hlast
+          simp only [Option.some.injEq] at hs; subst hs
+          exact hl.stepHand h hn hpc hlast
+        · split at hs
+          · simp at hs
+          · rename_i out hm
+            split at hs
+            · simp at hs
+            · rename_i n mb hg
+              simp only [Option.some.injEq] at hs
+              exact hl.stepSend h hn (Or.inl ⟨m, hpc⟩) hm hg (Or.inl ⟨n, rfl, Or.inl ⟨⟨m, hpc⟩, hs.symm⟩⟩)
+            · rename_i mb hg
+              exact hl.stepSend h hn (Or.inl ⟨m, hpc⟩) hm hg (Or.inr (Or.inr (Or.inl rfl)))
+            · rename_i n mb hg
+              simp only [Option.some.injEq] at hs
+              exact hl.stepSend h hn (Or.inl ⟨m, hpc⟩) hm hg (Or.inr (Or.inl ⟨n, rfl, hs.symm⟩))
+            · rename_i e mb hg
+              exact hl.stepSend h hn (Or.inl ⟨m, hpc⟩) hm hg (Or.inr (Or.inr (Or.inr ⟨e, rfl⟩)))
     · -- close
       rename_i hpc
       split at hs
@@ -445,14 +479,14 @@ theorem LInv.stepNode {w : Wiring} {s s' : Net} (h : Inv w s) (hl : LInv w s) {j
         · simp at hs
         · rename_i n mb hg
           simp only [Option.some.injEq] at hs
-          exact hl.stepSend h (m := .stop) hn (Or.inr ⟨hpc, rfl⟩) hm hg (Or.inl ⟨n, rfl, Or.inr ⟨hpc, hs.symm⟩⟩)
+          exact hl.stepSend h (m := .stop) hn (Or.inr hpc) hm hg (Or.inl ⟨n, rfl, Or.inr ⟨hpc, hs.symm⟩⟩)
         · rename_i mb hg
-          exact hl.stepSend h (m := .stop) hn (Or.inr ⟨hpc, rfl⟩) hm hg (Or.inr (Or.inr (Or.inl rfl)))
+          exact hl.stepSend h (m := .stop) hn (Or.inr hpc) hm hg (Or.inr (Or.inr (Or.inl rfl)))
         · rename_i n mb hg
           simp only [Option.some.injEq] at hs
-          exact hl.stepSend h (m := .stop) hn (Or.inr ⟨hpc, rfl⟩) hm hg (Or.inr (Or.inl ⟨n, rfl, hs.symm⟩))
+          exact hl.stepSend h (m := .stop) hn (Or.inr hpc) hm hg (Or.inr (Or.inl ⟨n, rfl, hs.symm⟩))
         · rename_i e mb hg
-          exact hl.stepSend h (m := .stop) hn (Or.inr ⟨hpc, rfl⟩) hm hg (Or.inr (Or.inr (Or.inr ⟨e, rfl⟩)))
+          exact hl.stepSend h (m := .stop) hn (Or.inr hpc) hm hg (Or.inr (Or.inr (Or.inr ⟨e, rfl⟩)))
     · simp at hs
     · simp at hs
 
@@ -495,6 +529,12 @@ theorem LInv.step {w : Wiring} {s s' : Net} (h : Inv w s) (hl : LInv w s) {t : T
   cases t with
   | node j => exact hl.stepNode h hs
   | side i => exact hl.stepSide h hs
+  | resolve id =>
+    simp only [Backpressure.step, stepResolve] at hs
+    split at hs
+    · simp only [Option.some.injEq] at hs; subst hs
+      exact ⟨hl.waiting, hl.atTop, hl.one⟩
+    · simp at hs
 
 theorem LInv.init (w : Wiring) (n : Nat) : LInv w (wire w n) := by
   refine ⟨?_, ?_, fun _ => by simp [wire]⟩
@@ -539,12 +579,21 @@ theorem LInv.gate {w : Wiring} {s : Net} (h : Inv w s) (hl : LInv w s) (hlz : w.
 
 theorem pull_emitted {s s' : Net} {j : Nat} {b : List Msg} (h : s.pull j b = some s') : s'.emitted = s.emitted := by
   unfold Net.pull at h
-  split at h <;> simp at h <;> subst h <;> simp
+  repeat' split at h
+  all_goals first
+    | (simp at h; done)
+    | (simp only [Option.some.injEq] at h; subst h; simp; done)
 
 /-- only the source in `read` advances the source -/
 theorem step_emitted {s s' : Net} {t : Tid} (h : Backpressure.step s t = some s') (he : s'.emitted ≠ s.emitted) :
     t = .node 0 ∧ ∃ nd, s.nodes[0]? = some nd ∧ nd.pc = .read := by
   cases t with
+  | resolve id =>
+    exfalso; apply he
+    simp only [Backpressure.step, stepResolve] at h
+    split at h
+    · simp only [Option.some.injEq] at h; subst h; rfl
+    · simp at h
   | side i =>
     exfalso; apply he
     simp only [Backpressure.step] at h
